@@ -531,6 +531,10 @@ class ExcelCompiler:
             try:
                 if addr in self.cell_map:
                     walk_dependents(self.cell_map[addr])
+                    if isinstance(self.cell_map[addr], _CellRange):
+                        # the cells of an input range are inputs as well
+                        for cell_addr in self.cell_map[addr]:
+                            walk_dependents(self.cell_map[cell_addr.address])
                     msg = ''
                 else:
                     msg = 'warning', f'Address {addr} not found in cell_map'
